@@ -833,6 +833,109 @@ def r10(k: Kit) -> None:
               f'{n} states: error reported unless BY_APPLICATION after the '
               'handshake', str(bad), fi.loc(fi.node))
 
+# ------------------------------------------------------------------ R11
+
+def r11(k: Kit) -> None:
+    rep = k.rep
+    rep.rule('C10.R11', 'the SOCKS request parser is driven by `while '
+             'self._recv_handler`; a handler that rejects the request calls '
+             'self.close(), which drops the transport.  Closing must also '
+             'end the parse (self._recv_handler = None, in close() itself or '
+             'next to every such call): otherwise the loop goes on feeding '
+             'buffered bytes to handlers that assert on / write to the '
+             'missing transport, and the exception leaves data_received')
+    cls = k.idx.cls('socks.SSHSOCKSForwarder')
+    closers = [f for f in cls.methods.values()
+               if f.name != 'close' and k.calls_named(f, 'close', 'self')]
+    rep.floor('C10.R11', 'request handlers that close', len(closers), 3)
+    cl = cls.methods.get('close')
+    in_close = False
+    if cl is not None:
+        g = k.cfg(cl)
+        clears = [n.id for n, v in k.stores_to(cl, 'self._recv_handler')
+                  if isinstance(v, ast.Constant) and v.value is None]
+        in_close = bool(clears) and g.must_pass(clears,
+                                                follow_exc=False) is None
+    for f in closers:
+        okf = in_close
+        if not okf:
+            g = k.cfg(f)
+            clears = [n.id for n, v in k.stores_to(f, 'self._recv_handler')
+                      if isinstance(v, ast.Constant) and v.value is None]
+            okf = bool(clears) and all(
+                g.path(n.id, g.exit, blocked_nodes=clears,
+                       follow_exc=False) is None or
+                g.path(g.entry, n.id, blocked_nodes=clears) is None
+                for n, c in k.calls_named(f, 'close', 'self'))
+        rep.check(okf, 'C10.R11', key(f, 'close ends the parse'),
+                  'after self.close() no further handler is dispatched',
+                  f'{f.qual} closes the connection but the parser loop in '
+                  'data_received keeps running on the bytes already '
+                  'buffered (e.g. SOCKS5 with zero auth methods, or a bad '
+                  'version byte followed by more data): the next handler '
+                  'hits `assert self._transport is not None` and the '
+                  'AssertionError escapes to the event loop', f.loc(f.node))
+
+# ------------------------------------------------------------------ R12
+
+def r12(k: Kit) -> None:
+    from ..absint import evaluate, Obj, NotEvaluable, _Raise
+    rep = k.rep
+    idx = k.idx
+    rep.rule('C10.R12', 'copy-data request on one handle: evaluated over a '
+             'grid of (read offset, length, write offset), the server '
+             'refuses overlapping source and target ranges - and every '
+             'read-to-end copy onto the same file - before the first block '
+             'is read; otherwise each block it writes extends what it has '
+             'still to read and the synchronous loop never ends (event loop '
+             'blocked, disk filled)')
+    fi = k.func('sftp.SFTPServerHandler._process_copy_data')
+    bad = None
+    n = 0
+    for same in (True, False):
+        for roff in (0, 5, 10, 20):
+            for woff in (0, 5, 10, 20):
+                for ln in (0, 5, 10):
+                    n += 1
+                    vals = [b'H1', roff, ln, b'H1' if same else b'H2', woff]
+                    seq = list(vals)
+
+                    def on_call(nm, args, env, seq=seq):
+                        if nm.endswith('.get_string') or \
+                                nm.endswith('.get_uint64'):
+                            return seq.pop(0)
+                        if nm == 'self._file_handles.get':
+                            return Obj('F-' + args[0].decode())
+                        if nm == 'self._server.read':
+                            return _Raise('StopHere')
+                        if nm == 'min':
+                            return min(args)
+                        if nm == 'inspect.isawaitable':
+                            return False
+                        return Obj('x')
+                    try:
+                        o = evaluate(idx, fi.module, fi.node.body,
+                                     {'self._server': Obj('SRV')},
+                                     {'packet': Obj('packet')}, on_call)
+                    except NotEvaluable as exc:
+                        rep.error('C10.R12', 'not-evaluable', str(exc))
+                        return
+                    overlap = same and (ln == 0 or (
+                        roff < woff + ln and woff < roff + ln))
+                    refused = o.kind == 'raise' and o.value != 'StopHere'
+                    if overlap and not refused:
+                        bad = bad or (f'same handle, read {roff}+{ln or "to end"} '
+                                      f'write at {woff}: the copy starts')
+                    if not overlap and refused:
+                        bad = bad or (f'{"same" if same else "different"} '
+                                      f'handles, read {roff}+{ln} write at '
+                                      f'{woff} (disjoint) is refused with '
+                                      f'{o.value}')
+    rep.count('eval.copy_data_states', n)
+    rep.check(bad is None, 'C10.R12', key(fi, 'self-overlapping copy refused'),
+              f'{n} (handles, offsets, length) states decided', str(bad),
+              fi.loc(fi.node))
+
 
 def run(idx, rep, tier):
     k = Kit(idx, rep)
@@ -849,3 +952,5 @@ def run(idx, rep, tier):
     r8(k)
     r9(k)
     r10(k)
+    r11(k)
+    r12(k)
